@@ -226,6 +226,12 @@ package core
 //@   ensures wrong_output_count_rejected [C37]: !(allOutputs && !multiple && len(old(dep.Outputs())) > 1 && ep == "")
 //@   ensures non_binary_exe_rejected [C37]: !(runnable && !old(dep.IsBinary)) && !(runnable && len(old(dep.Outputs())) == 0)
 //@   ensures test_time_tool_rejected [C37]: !(test && tool)
+//   Every path is quoted on its own (one shell word per path): quote is only ever applied to the location
+//   of ONE output, never to a joined list; and whether a tool is addressed by absolute path depends on where
+//   the COMMAND's target runs.
+//@   callsite quote one_path_per_word [C37]: arg_s == fileDestination(target, dep, out, dir, outPrefix, test) || \
+//@      (tool && arg_s == first(filepath.Abs(handleDir(dep.OutDir(), out, dir))))
+//@   callsite (BuildState).WillRunRemotely of_the_command [C37]: arg_target == target
 
 // ---------------------------------------------------------------------------------------------
 // Configuration layering (C39): the order in which files are applied.
